@@ -114,6 +114,22 @@ func progOutcome(src []byte) (s string, why string) {
 	if fmt.Sprint(xerr) != fmt.Sprint(xerr2) || out.String() != o1 || canonBlocks(res) != canonBlocks(res2) || canonBinding(bind) != canonBinding(bind2) {
 		return sb.String(), "executing the same Prog a second time gives a different outcome"
 	}
+	if lg.String() != l1 {
+		return sb.String(), "executing the same Prog a second time logs different warnings"
+	}
+	// two executions with the trace and the statistics on: the same text both times, and the same outcome as without
+	out.Reset()
+	res3, bind3, xerr3 := bcl.Execute(p, bcl.OptTrace(true), bcl.OptStats(true))
+	t1 := out.String()
+	out.Reset()
+	bcl.Execute(p, bcl.OptTrace(true), bcl.OptStats(true))
+	if t1 != out.String() {
+		return sb.String(), "two traced executions of the same Prog write different text"
+	}
+	if fmt.Sprint(xerr) != fmt.Sprint(xerr3) || canonBlocks(res) != canonBlocks(res3) || canonBinding(bind) != canonBinding(bind3) {
+		return sb.String(), "a traced execution of the same Prog gives a different outcome"
+	}
+	fmt.Fprintf(&sb, "trace=%s\n", sha([]byte(t1)))
 	return sb.String(), ""
 }
 
